@@ -14,6 +14,10 @@ static void honest_gen(Plan *p, uint64_t run_seed, uint64_t variant, int tier)
 	if (rng_chance(&g, 1, 2)) p->preempt_mean = (int64_t[]){ 5, 20, 100, 1000 }[rng_below(&g, 4)];
 	/* TLCP clients may run without trust anchors (the tool's -cacert is optional) */
 	if (p->proto == P_TLCP && !p->mutual && rng_chance(&g, 1, 5)) p->cred_mode = 2;
+	/* cred_mode bits: 1 = the leaves carry extendedKeyUsage (serverAuth / clientAuth), 2 = TLCP client without trust anchors,
+	 * 4 = the client has a certificate and key configured although the server will not ask for one */
+	if (rng_chance(&g, 1, 4)) p->cred_mode |= 1;
+	if (!p->mutual && rng_chance(&g, 1, 4)) p->cred_mode |= 4;
 }
 
 void honest_oracle(const Plan *p, const HonestOut *o, RunResult *r)
@@ -70,15 +74,15 @@ void honest_oracle(const Plan *p, const HonestOut *o, RunResult *r)
 static void honest_run(const Plan *p, RunResult *r)
 {
 	static HonestOut o;
-	const CredSet *cs = creds_get((int)p->depth, p->proto == P_TLCP);
+	const CredSet *cs = (p->cred_mode & 1) ? creds_get_eku((int)p->depth, p->proto == P_TLCP) : creds_get((int)p->depth, p->proto == P_TLCP);
 	conn_run(p, cs, &o, NULL, NULL);
 	honest_oracle(p, &o, r);
 	char what[256];
 	if (!r->violated && mon_state_violation(what, sizeof(what))) rr_violation(r, "state_corrupt", "%s", what);
 	r->nontrivial = g_sim.switches > 2;
 	r->nontrivial_id = g_sim.ileave;
-	snprintf(r->extra, sizeof(r->extra), "proto=%s mutual=%d depth=%d bytes=%llu recs=%d",
-		g_proto_names[p->proto], (int)p->mutual, (int)p->depth,
+	snprintf(r->extra, sizeof(r->extra), "proto=%s mutual=%d depth=%d cred=%d bytes=%llu recs=%d",
+		g_proto_names[p->proto], (int)p->mutual, (int)p->depth, (int)p->cred_mode,
 		(unsigned long long)(o.wrote[0] + o.wrote[1]), o.nrecs[0] + o.nrecs[1]);
 }
 
